@@ -15,6 +15,7 @@ pub enum Rule {
     CallArgType,
     CallArgCount,
     ReturnType,
+    DeclaredReturnType,
     BranchType,
     MatchArmType,
     LetAnnotationType,
@@ -34,7 +35,7 @@ pub enum Rule {
     MatchOnArray,
 }
 
-pub const AST_RULES: [Rule; 24] = [
+pub const AST_RULES: [Rule; 25] = [
     Rule::OperandType,
     Rule::ShiftAmountType,
     Rule::ConditionNotBool,
@@ -42,6 +43,7 @@ pub const AST_RULES: [Rule; 24] = [
     Rule::CallArgType,
     Rule::CallArgCount,
     Rule::ReturnType,
+    Rule::DeclaredReturnType,
     Rule::BranchType,
     Rule::MatchArmType,
     Rule::LetAnnotationType,
@@ -585,6 +587,16 @@ impl<'a> Mutator<'a> {
         self.block(&mut f.body);
         if f.body.tail.is_some() && self.hit(Rule::ReturnType) {
             f.body.tail = Some(Box::new(other_type_literal(&f.ret, self.rng)));
+        }
+        if f.body.tail.is_some() && !f.ret.is_unit() && self.hit(Rule::DeclaredReturnType) {
+            // the body keeps its value; the declared return type becomes `()` or another concrete type
+            f.ret = if self.rng.bool() {
+                Ty::Tuple(vec![])
+            } else if f.ret == Ty::Bool {
+                Ty::Int(ints::U8)
+            } else {
+                Ty::Bool
+            };
         }
         if !f.is_pub && self.hit(Rule::DirectRecursion) {
             let args = f.params.iter().map(|p| ex(ExprKind::Var(p.name.clone()), p.ty.clone())).collect();
